@@ -119,7 +119,14 @@ func commandErrIsFatal(err error) bool {
 	// FSET (and other writable commands) may return errors that we need
 	// to ignore during the loading process. These errors may occur (though unlikely)
 	// due to the aof rewrite operation.
-	return !(err == errKeyNotFound || err == errIDNotFound)
+	// After a rewrite the log is a snapshot followed by the commands that were
+	// accepted while the snapshot was taken; replayed on top of a snapshot that
+	// already contains their effect, RENAME can find a hook on the new name
+	// and SETHOOK/SETCHAN can find the name taken by the other kind. Refusing
+	// to start over these would turn a stale entry into a total outage.
+	return !(err == errKeyNotFound || err == errIDNotFound ||
+		err == errKeyHasHooksSet || err == errKeyHasChannelsSet ||
+		err == errHookChanSameName)
 }
 
 // flushAOF flushes all aof buffer data to disk. Set sync to true to sync the
